@@ -209,6 +209,11 @@ Inductive core : term -> Prop :=
     core (Annot a inner)
 | C_record fs :
     (forall f, In f fs -> exists v, simple_field f v /\ core v) -> core (Record [] fs false)
+| C_primop sp name args :
+    assoc_string sp primops = Some (name, length args) ->
+    (forall a, In a args -> core a) -> core (Op (ONamed name) args)
+| C_import p fmt : core (ImportPath p fmt)
+| C_import_pkg id : core (ImportPkg id)
 with core_ty : typ -> Prop :=
 | CT_dyn : core_ty TDyn
 | CT_number : core_ty TNumber
@@ -479,11 +484,44 @@ Lemma tab_not_primop sp :
 Proof.
   intros H. destruct (assoc_string sp primops) as [[name n]|] eqn:E; [|reflexivity].
   pose proof Htab as T. unfold table_ok in T. split_andb T.
-  match goal with X : forallb (primop_entry_ok op_spelling infix_ops) primops = true |- _ =>
+  match goal with X : forallb (primop_entry_ok op_spelling infix_ops postfix_ops) primops = true |- _ =>
     pose proof (forallb_in _ _ _ X (assoc_string_in _ _ _ E)) as Q end.
   unfold primop_entry_ok in Q. split_andb Q.
   repeat match goal with X : negb _ = true |- _ => apply negb_true_iff in X end.
   destruct H; congruence.
+Qed.
+
+Lemma tab_primop sp name ar :
+  assoc_string sp primops = Some (name, ar) ->
+  sp = ("%" ++ name ++ "%")%string /\ 1 <= ar
+  /\ starts_atom (TK sp) = false /\ mem_string sp structural_tokens = false
+  /\ assoc_string name op_spelling = None /\ mem_string name infix_ops = false
+  /\ String.eqb name "(&&)" = false /\ String.eqb name "(||)" = false
+  /\ String.eqb sp "%enum/embed%" = false /\ mem_string name postfix_ops = false
+  /\ assoc_string sp prefixops = None /\ assoc_string sp binops = None
+  /\ String.eqb name "record/get" = false /\ String.eqb name "(-)" = false
+  /\ String.eqb name "bool/not" = false.
+Proof.
+  intros E. pose proof Htab as T. unfold table_ok in T. split_andb T.
+  match goal with X : forallb (primop_entry_ok op_spelling infix_ops postfix_ops) primops = true |- _ =>
+    pose proof (forallb_in _ _ _ X (assoc_string_in _ _ _ E)) as Q end.
+  match goal with X : forallb (fun e => negb (mem_string (fst e) (map fst prefixops)) && _) primops = true |- _ =>
+    pose proof (forallb_in _ _ _ X (assoc_string_in _ _ _ E)) as Q2 end.
+  cbn [fst] in Q2. apply andb_prop in Q2 as [Q2a Q2b].
+  apply negb_true_iff in Q2a. apply negb_true_iff in Q2b.
+  unfold primop_entry_ok in Q. split_andb Q.
+  repeat match goal with X : negb _ = true |- _ => apply negb_true_iff in X end.
+  match goal with X : String.eqb sp _ = true |- _ => apply String.eqb_eq in X end.
+  match goal with X : Nat.leb 1 ar = true |- _ => apply Nat.leb_le in X end.
+  assert (Hsp : assoc_string name op_spelling = None).
+  { destruct (assoc_string name op_spelling); [discriminate|reflexivity]. }
+  repeat split; auto.
+  - now apply assoc_string_none_notin.
+  - now apply assoc_string_none_notin.
+  - destruct (String.eqb name "record/get") eqn:E1; [|reflexivity]. apply String.eqb_eq in E1. subst. congruence.
+  - destruct (String.eqb name "(-)") eqn:E1; [|reflexivity]. apply String.eqb_eq in E1. subst. congruence.
+  - destruct (String.eqb name "bool/not") eqn:E1; [|reflexivity]. apply String.eqb_eq in E1. subst.
+    destruct (assoc_string "bool/not" op_spelling); [discriminate|discriminate].
 Qed.
 
 (* ------------------------------------------------------------------ follow sets *)
@@ -763,6 +801,9 @@ Proof.
     + cbn [negb parens_if]. destruct (IHHc eq_refl) as (tok & r & E & Hs). rewrite E. cbn; eauto.
     + cbn; eauto.
   - cbn [pr_term pr_record]. destruct fs; cbn; eauto.
+  - (* prefix primop: not an atom *)
+    destruct (tab_primop _ _ _ H) as (_ & _ & _ & _ & _ & _ & E2 & E3 & _ & _ & _ & _ & E1 & _).
+    rewrite E1, E2, E3 in Ha. discriminate.
 Qed.
 
 (* how a strict binary operator application is printed *)
@@ -789,13 +830,41 @@ Definition is_uniterm_only (t : term) : bool :=
   | _ => false
   end.
 
+(* how a prefix primop application is printed *)
+Lemma pr_primop sp name args :
+  assoc_string sp primops = Some (name, length args) ->
+  PT (Op (ONamed name) args) = TK sp :: flat_map PATOM args.
+Proof.
+  intros H.
+  destruct (tab_primop _ _ _ H) as (Esp & _ & _ & _ & Eo & Ei & E2 & E3 & _ & Ep & _ & _ & Eg & Em & En).
+  assert (Eop : op_toks op_spelling (ONamed name) = [TK sp]).
+  { unfold op_toks. rewrite E2, E3, Eo. cbn [orb]. now subst sp. }
+  cbn [pr_term op_name]. destruct args as [|a [|b [|c l]]].
+  - rewrite Ep. now rewrite Eop.
+  - rewrite En, E2, E3, Ep. now rewrite Eop.
+  - rewrite Eg, Em, Ep, Ei. cbn [andb]. now rewrite Eop.
+  - rewrite Ep. now rewrite Eop.
+Qed.
+
+(* a partially applied lazy operator is not in the fragment *)
+Lemma core_not_lazy_partial name x :
+  core (Op (ONamed name) [x]) -> String.eqb name "(&&)" || String.eqb name "(||)" = false.
+Proof.
+  intros Hc. inversion Hc; subst.
+  - reflexivity.
+  - match goal with X : assoc_string _ primops = Some _ |- _ =>
+      destruct (tab_primop _ _ _ X) as (_ & _ & _ & _ & _ & _ & E2 & E3 & _) end.
+    now rewrite E2, E3.
+Qed.
+
 (* the first token(s) of a printed term *)
 Lemma pt_head t :
   core t ->
   exists tok r, PT t = tok :: r
     /\ (starts_atom tok = true
         \/ ((tok = TK "-" \/ tok = TK "!") /\ exists tok2 r2, r = tok2 :: r2 /\ starts_atom tok2 = true)
-        \/ ((tok = TK "let" \/ tok = TK "fun" \/ tok = TK "if") /\ is_uniterm_only t = true)).
+        \/ ((tok = TK "let" \/ tok = TK "fun" \/ tok = TK "if" \/ tok = TK "import") /\ is_uniterm_only t = true)
+        \/ (exists sp name ar, tok = TK sp /\ assoc_string sp primops = Some (name, ar))).
 Proof.
   intros Hc.
   assert (Hat : forall a r0, core a -> exists tok r, PATOM a ++ r0 = tok :: r /\ starts_atom tok = true).
@@ -814,10 +883,7 @@ Proof.
     assert (E : PT (App h args) = PATOM h ++ flat_map PATOM args).
     { cbn [pr_term]. destruct h; try reflexivity. destruct o; try reflexivity.
       destruct args0 as [|x [|? ?]]; try reflexivity.
-      destruct (String.eqb name "(&&)" || String.eqb name "(||)") eqn:El; [|reflexivity].
-      (* a partially applied lazy operator is not in the fragment *)
-      exfalso. inversion Hc; subst;
-        apply orb_prop in El as [El|El]; apply String.eqb_eq in El; discriminate. }
+      now rewrite (core_not_lazy_partial _ _ Hc). }
     rewrite E. destruct (Hat h (flat_map PATOM args) Hc) as (tok & r & -> & Hs). eauto 8.
   - (* lazy operator *)
     cbn [pr_term]. unfold is_lazy_name in H. rewrite H.
@@ -837,13 +903,18 @@ Proof.
     exists (TK "!"), (PATOM a). split; [reflexivity|]. right; left. split; [now right|]. rewrite E. eauto.
   - (* access *)
     cbn [pr_term]. destruct (Hat a ([TK "."] ++ ident_toks keywords id) Hc) as (tok & r & -> & Hs). eauto 8.
-  - cbn; eauto 10.
-  - cbn [pr_term]. destruct (negb (q_dynaccess q) && is_curried_dot args body); cbn; eauto 10.
-  - cbn; eauto 10.
+  - cbn [pr_term app]. eexists _, _. split; [reflexivity|]. right; right; left. split; [tauto|reflexivity].
+  - cbn [pr_term]. destruct (negb (q_dynaccess q) && is_curried_dot args body); cbn [app].
+    + eexists _, _. split; [reflexivity|]. left. reflexivity.
+    + eexists _, _. split; [reflexivity|]. right; right; left. split; [tauto|reflexivity].
+  - cbn [pr_term app]. eexists _, _. split; [reflexivity|]. right; right; left. split; [tauto|reflexivity].
   - cbn [pr_term].
     match goal with |- context [PATOM inner ++ ?R] => destruct (Hat inner R Hc) as (tok & r & -> & Hs) end.
     eauto 8.
   - cbn [pr_term pr_record]. destruct fs; cbn; eauto 8.
+  - rewrite (pr_primop _ _ _ H). eexists _, _. split; [reflexivity|]. right; right; right. eauto.
+  - cbn [pr_term]. unfold quoted. cbn [app]. eexists _, _. split; [reflexivity|]. right; right; left. split; [tauto|reflexivity].
+  - cbn [pr_term]. eexists _, _. split; [reflexivity|]. right; right; left. split; [tauto|reflexivity].
 Qed.
 
 (* ---- atoms *)
@@ -904,23 +975,29 @@ Qed.
 Lemma pt_not_curried t : core t -> not_curried (PT t).
 Proof.
   intros Hc. destruct (pt_head t Hc) as (tok & r & E & H). exists tok, r. split; [exact E|].
-  destruct H as [H|[[_ H]|[[->|[->| ->]] _]]].
+  destruct H as [H|[[_ H]|[[[->|[->|[->| ->]]] _]|(sp & name & ar & -> & Hp)]]].
   - left. now apply curried_none_atomstart.
   - now right.
   - left. now apply curried_none_struct.
   - left. now apply curried_none_struct.
   - left. now apply curried_none_struct.
+  - left. now apply curried_none_struct.
+  - left. destruct (tab_primop _ _ _ Hp) as (Esp & _ & _ & _ & _ & _ & _ & _ & _ & _ & Epre & Ebin & _).
+    unfold curried_op_name. rewrite Ebin, Epre. subst sp. reflexivity.
 Qed.
 
 (* a printed term does not start with a closing or separating token *)
 Lemma pt_peek_false s t r :
-  core t -> starts_atom (TK s) = false -> s <> "-" -> s <> "!" -> s <> "let" -> s <> "fun" -> s <> "if" ->
+  core t -> starts_atom (TK s) = false -> mem_string s structural_tokens = true ->
+  s <> "-" -> s <> "!" -> s <> "let" -> s <> "fun" -> s <> "if" -> s <> "import" ->
   peek_is s (PT t ++ r) = false.
 Proof.
-  intros Hc Hs H1 H2 H3 H4 H5. destruct (pt_head t Hc) as (tok & r0 & -> & H).
+  intros Hc Hs Hst H1 H2 H3 H4 H5 H6. destruct (pt_head t Hc) as (tok & r0 & -> & H).
   cbn [app peek_is]. unfold is_tk. destruct tok as [s'| | | | | | | | | |]; try reflexivity.
   destruct (String.eqb s s') eqn:E; [|reflexivity]. apply String.eqb_eq in E. subst s'.
-  destruct H as [H|[[[H|H] _]|[[H|[H|H]] _]]]; try congruence; inversion H; congruence.
+  destruct H as [H|[[[H|H] _]|[[[H|[H|[H|H]]] _]|(sp & name & ar & H & Hp)]]];
+    try congruence; try (inversion H; congruence).
+  inversion H; subst. destruct (tab_primop _ _ _ Hp) as (_ & _ & _ & Hns & _). congruence.
 Qed.
 
 Lemma sep_by_cons2 {A} sep (f : A -> list token) x y l :
@@ -939,12 +1016,12 @@ Proof.
     destruct (Hes x (or_introl eq_refl)) as [Hcx Hnx].
     destruct es as [|y es].
     + cbn [sep_by] in *. cbn [term_list].
-      rewrite pt_peek_false by (auto; discriminate).
+      rewrite pt_peek_false by (auto; try reflexivity; discriminate).
       rewrite (self_p_term x (TK "]" :: rest));
         [ | exact Hcx | exact Hnx | now apply closer_term_follow | exact Hl ].
       psimp. cbn [rev]. reflexivity.
     + rewrite sep_by_cons2 in *. rewrite <- !app_assoc in *. cbn [app] in *. cbn [term_list].
-      rewrite pt_peek_false by (auto; discriminate).
+      rewrite pt_peek_false by (auto; try reflexivity; discriminate).
       rewrite (self_p_term x (TK "," :: sep_by [TK ","] PT (y :: es) ++ TK "]" :: rest));
         [ | exact Hcx | exact Hnx | now apply closer_term_follow | exact Hl ].
       psimp.
@@ -1162,6 +1239,9 @@ Proof.
     intros fd Hin. destruct (H fd Hin) as (v & (s & ->) & Hv). exists s, v. repeat split; auto.
     rewrite pr_record_simple in Hn.
     pose proof (sep_by_in_len PFDEF [TK ","] fs _ Hin) as Hlen. rewrite pr_fdef_simple in Hlen. len.
+  - (* prefix primop: not an atom *)
+    destruct (tab_primop _ _ _ H) as (_ & _ & _ & _ & _ & _ & E2 & E3 & _ & _ & _ & _ & E1 & _).
+    rewrite E1, E2, E3 in Ha. discriminate.
 Qed.
 
 (* ---- access chains *)
@@ -1358,6 +1438,64 @@ Proof.
   - len.
 Qed.
 
+Lemma atoms_n_ok : forall args acc rest,
+  (forall a, In a args -> core a /\ length (PATOM a) <= S n) ->
+  weak_follow rest ->
+  length (flat_map PATOM args ++ rest) < lfuel ->
+  atoms_n binops prefixops q lfuel self (length args) acc (flat_map PATOM args ++ rest)
+  = Some (rev acc ++ args, rest).
+Proof.
+  induction args as [|a args IH]; intros acc rest Ha Hw Hl.
+  - cbn. now rewrite app_nil_r.
+  - destruct (Ha a (or_introl eq_refl)) as [Hca Hna].
+    cbn [flat_map length atoms_n] in *. rewrite <- app_assoc in *.
+    rewrite atom_term_ok; [ | exact Hca | exact Hna | exact Hl | ].
+    + cbn [bind]. rewrite IH.
+      * cbn [rev]. now rewrite <- app_assoc.
+      * intros x Hx. apply Ha. now right.
+      * exact Hw.
+      * len.
+    + apply atoms_peek_dot; [|exact Hw]. intros x Hx. apply Ha. now right.
+Qed.
+
+Lemma mem_false_neq s k l : mem_string s l = false -> In k l -> String.eqb s k = false.
+Proof.
+  intros Hm Hin. destruct (String.eqb s k) eqn:E; [|reflexivity]. apply String.eqb_eq in E. subst.
+  apply mem_string_in in Hin. congruence.
+Qed.
+
+(* a prefix primop applied to its arguments *)
+Lemma primop_loopform L sp name args rest :
+  assoc_string sp primops = Some (name, length args) ->
+  (forall a, In a args -> core a) ->
+  length (TK sp :: flat_map PATOM args) <= S n -> weak_follow rest ->
+  length (TK sp :: flat_map PATOM args ++ rest) < lfuel ->
+  infix binops prefixops primops q lfuel self L (TK sp :: flat_map PATOM args ++ rest)
+  = infix_loop binops self lfuel L (UTerm (Op (ONamed name) args)) rest.
+Proof.
+  intros Hp Ha Hn Hw Hl.
+  destruct (tab_primop _ _ _ Hp) as (_ & _ & _ & Hns & _ & _ & _ & _ & Eemb & _ & Epre & _).
+  unfold infix, infix_prefix. rewrite Epre.
+  unfold applicative, applicative_head.
+  rewrite (mem_false_neq sp "Array" _ Hns) by (cbn; tauto).
+  rewrite (mem_false_neq sp "match" _ Hns) by (cbn; tauto).
+  rewrite Eemb, Hp.
+  rewrite atoms_n_ok; [ | | exact Hw | cbn [length] in Hl; len ].
+  - cbn [bind rev app].
+    assert (Hstar : atoms_star binops prefixops q lfuel self lfuel [] rest = Some ([], rest)).
+    { pose proof (atoms_star_ok [] [] rest lfuel) as Hs. cbn [flat_map app rev] in Hs. apply Hs.
+      - intros ? [].
+      - exact Hw.
+      - cbn [length] in *. lia.
+      - cbn [length] in *. len. }
+    rewrite Hstar. reflexivity.
+  - intros a Hin. split; [now apply Ha|].
+    assert (length (PATOM a) <= length (flat_map PATOM args)).
+    { clear -Hin. induction args as [|b args IH]; [destruct Hin|]. cbn [flat_map].
+      destruct Hin as [->|Hin]; [len | specialize (IH Hin); len]. }
+    cbn [length] in Hn. len.
+Qed.
+
 (* ---- infix expressions *)
 
 Notation IPRE := (infix_prefix binops prefixops primops q lfuel self).
@@ -1483,8 +1621,7 @@ Proof.
     destruct (Happ h args Hc H0) as (f' & Hf' & E).
     + cbn [pr_term]. destruct h; try reflexivity. destruct o; try reflexivity.
       destruct args0 as [|x [|? ?]]; try reflexivity.
-      destruct (String.eqb name "(&&)" || String.eqb name "(||)") eqn:El; [|reflexivity].
-      exfalso. inversion Hc; subst; apply orb_prop in El as [El|El]; apply String.eqb_eq in El; discriminate.
+      now rewrite (core_not_lazy_partial _ _ Hc).
     + exists f'. split; [exact Hf'|]. rewrite E. unfold app_result.
       destruct args as [|a0 args]; [congruence|].
       destruct h; try reflexivity. destruct arg; [reflexivity|].
@@ -1515,6 +1652,9 @@ Proof.
     apply (Hpre a "!" lvl (PUnary "bool/not")); auto;
       try (cbn [pr_term op_name]; streq; reflexivity).
     cbn [mk_prefix]. rewrite as_term_uni_of by assumption. reflexivity.
+  - (* prefix primop *)
+    exists lfuel. split; [len|]. rewrite (pr_primop _ _ _ H) in *. rewrite <- app_comm_cons in *.
+    apply (primop_loopform max_level sp name args rest); auto. exact (proj1 Hf).
 Qed.
 
 Lemma infix_ok t rest :
@@ -1557,7 +1697,7 @@ Lemma pt_first_not_kw t rest : core t -> is_uniterm_only t = false -> first_not_
 Proof.
   intros Hc Hu. destruct (pt_head t Hc) as (tok & r & E & H). rewrite E. cbn [app first_not_kw].
   destruct tok as [s| | | | | | | | | |]; try exact I.
-  destruct H as [H|[[[H|H] _]|[_ H]]].
+  destruct H as [H|[[[H|H] _]|[[_ H]|(sp & name & ar & H & Hp)]]].
   - cbn [mem_string]. 
     repeat match goal with
            | |- (String.eqb s ?k || _) = false =>
@@ -1567,6 +1707,13 @@ Proof.
   - inversion H. reflexivity.
   - inversion H. reflexivity.
   - congruence.
+  - inversion H; subst. destruct (tab_primop _ _ _ Hp) as (_ & _ & _ & Hns & _).
+    cbn [mem_string].
+    repeat match goal with
+           | |- (String.eqb sp ?k || _) = false =>
+               let E := fresh in destruct (String.eqb sp k) eqn:E;
+               [apply String.eqb_eq in E; subst; discriminate | cbn [orb]]
+           end. reflexivity.
 Qed.
 
 Lemma uni_infix_ok t rest :
@@ -1618,9 +1765,13 @@ Proof.
   destruct args as [|[] [|[] [|? ?]]]; try discriminate.
   apply andb_prop in E as [E _]. apply andb_prop in E as [E _]. apply andb_prop in E as [E _].
   apply andb_prop in E as [E _]. apply String.eqb_eq in E. subst.
-  inversion Hc; subst. unfold binop_name in *.
-  match goal with X : _ && negb (String.eqb "record/get" "record/get") = true |- _ =>
-    apply andb_prop in X as [_ X]; discriminate end.
+  inversion Hc; subst.
+  - unfold binop_name in *.
+    match goal with X : _ && negb (String.eqb "record/get" "record/get") = true |- _ =>
+      apply andb_prop in X as [_ X]; discriminate end.
+  - match goal with X : assoc_string _ primops = Some _ |- _ =>
+      destruct (tab_primop _ _ _ X) as (_ & _ & _ & _ & _ & _ & _ & _ & _ & _ & _ & _ & Eg & _) end.
+    discriminate.
 Qed.
 
 Lemma simple_pats_map args :
@@ -1880,6 +2031,36 @@ Proof.
   - cbn [bind]. rewrite as_term_uni_of by assumption. cbn [bind]. now rewrite Hm.
 Qed.
 
+(* ---- imports *)
+
+Lemma follow_not_as rest : term_follow rest -> is_as rest = false.
+Proof.
+  intros [[Hw _] _]. destruct rest as [|t r]; [reflexivity|]. destruct Hw as [Hs _].
+  destruct t; try reflexivity. discriminate.
+Qed.
+
+Lemma quoted_static p X :
+  standard_static_string (TStr :: lit_toks p ++ TEnd :: X) = Some (p, X).
+Proof. unfold lit_toks. destruct p; reflexivity. Qed.
+
+Lemma uni_import p fmt rest :
+  term_follow rest ->
+  UNI (PT (ImportPath p fmt) ++ rest) = Some (UTerm (ImportPath p fmt), rest).
+Proof.
+  intros Hf. cbn [pr_term]. unfold quoted. rewrite <- !app_assoc. cbn [app].
+  unfold uniterm. streq. cbv iota.
+  rewrite quoted_static. cbn [bind].
+  destruct (format_from_path p) as [f|] eqn:Ef.
+  - destruct (String.eqb f fmt) eqn:Ee.
+    + apply String.eqb_eq in Ee. subst f. cbn [app]. now rewrite (follow_not_as rest Hf).
+    + reflexivity.
+  - reflexivity.
+Qed.
+
+Lemma uni_import_pkg id rest :
+  UNI (PT (ImportPkg id) ++ rest) = Some (UTerm (ImportPkg id), rest).
+Proof. reflexivity. Qed.
+
 Lemma uni_ok t rest :
   core t -> length (PT t) <= S n -> term_follow rest -> length (PT t ++ rest) < lfuel ->
   UNI (PT t ++ rest) = Some (uni_of t, rest).
@@ -1890,6 +2071,8 @@ Proof.
   - now apply uni_fun.
   - now apply uni_let.
   - now apply uni_annot.
+  - now apply uni_import.
+  - apply uni_import_pkg.
 Qed.
 
 (* ---- types *)
